@@ -106,6 +106,7 @@ pub fn flavor_for(prop: &str) -> Flavor {
         "C04" => {
             f.prop = "C04";
             f.oracles = Oracles { checkpoint: true, ..Default::default() };
+            f.refgen_pct = 25;
             f.profile = |r| {
                 let mut p = Profile::mixed();
                 p.w_checkpoint = 12;
